@@ -50,6 +50,10 @@ type Case struct {
 var pathPool = []string{"/plain", "/plain/l1", "/plain/descr", "/plain/l2a", "/plain/ifc", "/chc", "/plain/sub", "/plain/tags"}
 
 func genPaths(t *rapid.T, label string) []int {
+	// "any number of paths": now and then none at all
+	if rapid.IntRange(0, 7).Draw(t, label+"-none") == 3 {
+		return []int{}
+	}
 	return rapid.SliceOfN(rapid.IntRange(0, len(pathPool)-1), 1, 4).Draw(t, label)
 }
 
@@ -93,7 +97,7 @@ const bound = 3 * time.Second
 
 var prop = vlib.Prop[*Case]{
 	ID: "C19",
-	Rule: "case = running configuration (0..12 generated leaves written to the CONFIG store, a copy in STATE) + one streaming call on a harness-owned stream: Server.GetData (hook H7; 1..4 paths, 4 encodings, 3 data types), Datastore.Subscribe (1..4 subscriptions, sample intervals 1..6 ms) or Server.WatchDeviations + the way the client ends: data exhausted, context cancelled when send k happened, every send from index k on fails (with or without the context being cancelled), send k stalls and the context is cancelled later, cancellation after 0..25 ms (hits arbitrary ticks), a context that is cancelled before the call starts, optionally a slow consumer (1..4 ms per send); " +
+	Rule: "case = running configuration (0..12 generated leaves written to the CONFIG store, a copy in STATE) + one streaming call on a harness-owned stream: Server.GetData (hook H7; 0..4 paths, 4 encodings, 3 data types), Datastore.Subscribe (1..4 subscriptions of 0..4 paths, sample intervals 1..6 ms) or Server.WatchDeviations + the way the client ends: data exhausted, context cancelled when send k happened, every send from index k on fails (with or without the context being cancelled), send k stalls and the context is cancelled later, cancellation after 0..25 ms (hits arbitrary ticks), a context that is cancelled before the call starts, optionally a slow consumer (1..4 ms per send); " +
 		"oracle = the handler returns within 3 s of the end event and within 3 s of its return no goroutine with a data-server frame that did not exist before the call is left; a panic anywhere kills the process and is reported through the case journal; " +
 		"non-trivial = the end event happened while the call was active (at least one message sent or the call was blocked in a tick wait); distinct = distinct cases",
 	Gen:  gen,
